@@ -4,6 +4,7 @@ import (
 	"fmt"
 	"go/token"
 	"go/types"
+	"os"
 	"sort"
 	"strings"
 
@@ -152,11 +153,8 @@ func runRoots(c *core.Ctx) {
 	var fn *ssa.Function
 	var h *ssa.BasicBlock
 	for _, f := range sharedStoreFuncs(c) {
-		if f.Signature.Results().Len() == 0 {
-			continue
-		}
-		// the function works on an index it returns changed: (types.Index, ...) results
-		if n := an.NamedOf(f.Signature.Results().At(0).Type()); n == nil || n.Obj().Name() != "Index" {
+		// the function works on an index it returns changed: (types.Index, ...) results, or a result record holding it
+		if !returnsIndex(f) {
 			continue
 		}
 		for _, b := range f.Blocks {
@@ -341,19 +339,27 @@ func runRoots(c *core.Ctx) {
 		}
 		return false
 	}
-	isSubjExists := func(v ssa.Value) bool {
+	// a conjunction that merely contains the variable (`referrersWithSubject && subjExists`, materialised as a φ with
+	// a short-circuit false edge) is not the variable: none of the φ's operands may itself be one
+	var isSubjExistsD func(v ssa.Value, d int) bool
+	isSubjExistsD = func(v ssa.Value, d int) bool {
 		phi, ok := v.(*ssa.Phi)
-		if !ok {
+		if !ok || d > 4 {
 			return false
 		}
 		hasFalse := false
 		for _, e := range phi.Edges {
 			if bv, ok := an.ConstBool(e); ok && !bv {
 				hasFalse = true
+				continue
+			}
+			if eb, _ := an.CondBase(e); eb != nil && eb != ssa.Value(phi) && isSubjExistsD(eb, d+1) {
+				return false
 			}
 		}
 		return hasFalse && fromSubject(phi, 0)
 	}
+	isSubjExists := func(v ssa.Value) bool { return isSubjExistsD(v, 0) }
 
 	// --- path enumeration over one iteration
 	type outcome struct {
@@ -425,7 +431,8 @@ func runRoots(c *core.Ctx) {
 					}
 					env2[phi] = sv
 				} else if isSubjExists(eb) {
-					// decided when branched on
+					// the variable itself flows into this φ: decided when branched on
+					env2[phi] = symBool{alias: eb, aliasNeg: eneg}
 				} else if _, isBool := e.Type().Underlying().(*types.Basic); isBool && e.Type().Underlying().(*types.Basic).Kind() == types.Bool {
 					if at, pol, ok := atomOf(e); ok {
 						found[at] = true
@@ -451,6 +458,16 @@ func runRoots(c *core.Ctx) {
 			return
 		}
 		base, neg := an.CondBase(ifi.Cond)
+		for k := 0; k < 4; k++ {
+			sv, ok := env2[base]
+			if !ok || sv.alias == nil {
+				break
+			}
+			base = sv.alias
+			if sv.aliasNeg {
+				neg = !neg
+			}
+		}
 		// branchAtom splits the path on an atom; condPol is the polarity of the atom when the condition holds
 		branchAtom := func(at rootAtom, condPol int8, envFor func(val bool) map[ssa.Value]symBool) {
 			found[at] = true
@@ -599,6 +616,11 @@ func runRoots(c *core.Ctx) {
 		{"drop:old", "an untagged entry older than the grace period is not a root when untagged collection is on", mk(int(atomU), 1, int(atomT), -1, int(atomS), -1, int(atomG), 1, int(atomK), 1, int(atomR), -1), false, "exact"},
 	}
 	sort.SliceStable(outs, func(i, j int) bool { return outs[i].lits.String() < outs[j].lits.String() })
+	if os.Getenv("OLACHECK_DEBUG_ROOTS") != "" {
+		for _, o := range outs {
+			fmt.Printf("ROOTS path [%s] appended=%v last=%s\n", o.lits, o.appended, c.P.Pos(o.last))
+		}
+	}
 	for _, q := range reqs {
 		var bad *outcome
 		nCons := 0
@@ -632,6 +654,9 @@ type symBool struct {
 	isAtom bool
 	atom   rootAtom
 	pol    int8 // polarity of the atom when the variable is true
+	// alias: the variable has the value of another boolean (possibly negated) that is decided when branched on
+	alias    ssa.Value
+	aliasNeg bool
 }
 
 func (s symBool) not() symBool {
@@ -640,6 +665,9 @@ func (s symBool) not() symBool {
 	}
 	if s.isAtom {
 		s.pol = -s.pol
+	}
+	if s.alias != nil {
+		s.aliasNeg = !s.aliasNeg
 	}
 	return s
 }
